@@ -33,12 +33,18 @@ THEOREMS = [
     "C05.materialize_eq", "C05.dematerialize_eq", "C05.dematerialize_materialize", "C05.scan_seed_eq",
     "C05.map_timed", "C05.skip_last_timed", "C05.take_last_timed",
     "C05.skip_last_asis_drops_none", "C05.skip_last_asis_counter",
+    # re-entrant feedback sources (RxModel/OpsFb.lean)
+    "C05.fb_eq_sequential", "C05.map_fb", "C05.filter_fb", "C05.filter_indexed_fb", "C05.take_fb", "C05.skip_fb", "C05.take_while_fb",
+    "C05.take_while_indexed_fb", "C05.skip_while_fb", "C05.distinct_fb", "C05.distinct_until_changed_fb", "C05.pairwise_fb",
+    "C05.start_with_fb", "C05.default_if_empty_fb", "C05.ignore_elements_fb", "C05.take_last_fb", "C05.skip_last_fb",
+    "C05.take_last_buffer_fb", "C05.element_at_fb", "C05.find_fb", "C05.materialize_fb", "C05.dematerialize_fb", "C05.scan_seed_fb",
+    "C05.take_late_counter",
 ]
 RULE = ("per case: one operator (uniform over the catalogue), parameters aimed at its branches (counts 0..len+2 and negative, "
         "predicate/key/comparer tables over the case's small value alphabet incl. raising entries and non-bool truthy results), a hot "
         "timeline of 0..12 elements with duplicates and falsy values, equal timestamps, terminal kinds balanced (completed/error/none) and "
         "~15% non-conforming tails (emissions after the terminal, second terminal); recorded at subscriber level (70%) or by a raw observer "
-        "without disposal feedback (30%); plus 1200 RE-ENTRANT cases (oracle only): the source is a Subject and the consumer pushes the next pending "
+        "without disposal feedback (30%); plus 1200 RE-ENTRANT cases (model correspondence for the single-stage operators, oracle for all): the source is a Subject and the consumer pushes the next pending "
         "element into it from inside its own on_next, so the operator's handler is re-entered during its downstream call. Non-trivial = output differs from the conforming input or a callback raised or the input is non-conforming.")
 ASSUMPTIONS = [
     "single-threaded / virtual-time execution; source = one hot observable (the property quantifies over finite timelines)",
@@ -415,8 +421,17 @@ def impl(case):
     return run_real(case, lambda xs: xs.pipe(op))
 
 
+# single-stage operators with a split (re-entrant) model in RxModel/OpsFb.lean; compositions (map_indexed,
+# skip_while_indexed, materialize|dematerialize, slice pipelines) stay oracle-only in feedback mode
+FB_MODELLED = {"map", "starmap", "pluck", "filter", "filter_indexed", "take", "skip", "take_while", "take_while_indexed", "skip_while",
+               "distinct", "distinct_until_changed", "pairwise", "start_with", "default_if_empty", "ignore_elements", "take_last",
+               "skip_last", "take_last_buffer", "element_at", "element_at_or_default", "find", "find_index", "materialize", "dematerialize"}
+
+
 def model_request(case):
-    return None if case.get("mode") == "feedback" else case   # the atomic-handler model cannot express a re-entered handler
+    if case.get("mode") == "feedback":
+        return case if case["name"] in FB_MODELLED else None
+    return case
 
 
 # ----------------------------------------------------------------------------------------- oracle
@@ -724,7 +739,9 @@ LEVEL_TEXT = ("Lean theorems (unbounded, by induction): for every raw notificati
               "element_at(+_or_default), find, find_index, materialize, dematerialize equals the reference list computation on the conforming "
               "prefix with the same termination; *_pure theorems identify the reference loops with List.map/filter/takeWhile/dropWhile/"
               "eraseDupsBy/eraseRepsBy/find? for non-raising callbacks; timing: emitted_at + map_timed/skip_last_timed/take_last_timed; "
-              "dematerialize_materialize; pipe_eq (composition through the real observer chain). Models mirror the handlers line by line and "
+              "dematerialize_materialize; pipe_eq (composition through the real observer chain); re-entrant feedback sources: fb_eq_sequential "
+              "(state committed before the downstream call => re-entrant run = sequential run of the arrival order, every input and nesting bound) "
+              "and *_fb for every single-stage operator. Models mirror the handlers line by line and "
               "are tied to /repo by differential execution on generated hot timelines (timed output, subscriber-level and raw).")
 LEVEL_NOTE = ("All listed operators have theorems; starmap/pluck are map instances over the modelled argument adapters of RxModel/OpsVal.lean "
               "(*values unpacking of tuples/lists/strings/dicts, x[key] on dicts/lists/tuples/strings incl. KeyError/IndexError/TypeError); only the "
@@ -732,4 +749,8 @@ LEVEL_NOTE = ("All listed operators have theorems; starmap/pluck are map instanc
               "skip_last is modelled with the proposed fix (fixes/C05_skip_last_none.patch): on the unfixed tree the check reports VIOLATION; "
               "the as-is behaviour is kept as skipLastAsIsOp with decide'd counter-example theorems skip_last_asis_*. take(0)/empty() and "
               "start_with (concat+from_iterable) are modelled as 'emitted while subscribing'; the scheduler hop inside concat is not modelled "
-              "(inputs start after the subscription instant).")
+              "(inputs start after the subscription instant). Re-entrant runs (RxModel/OpsFb.lean: handlers split at their downstream calls) are "
+              "modelled and proved for the single-stage operators; compositions (map_indexed, skip_while_indexed, materialize|dematerialize, slice "
+              "pipelines of 2+ stages) stay oracle-only in feedback mode; terminals are pushed from the top level (a terminal fed back from "
+              "inside on_next is outside the property's quantifier); a state write AFTER a downstream call is not expressible in HOutR (no code "
+              "in the catalogue does that).")
